@@ -139,3 +139,7 @@ func constEval(fn *ssa.Function, args []constant.Value, depth int) (constant.Val
 	}
 	return nil, fmt.Errorf("step limit")
 }
+
+func constantFloat(k *ssa.Const) (float64, bool) {
+	return constant.Float64Val(constant.ToFloat(k.Value))
+}
